@@ -40,7 +40,10 @@ ASSUMPTIONS = [
     "tolerance 1e4 eps relative to row scale (transfer); in 'levels' "
     "multiplied by 1 + max_i max(|x_i|,|x_i+1|)/h_i, the conditioning of "
     "an interpolation weight computed from absolute coordinates (large "
-    "stretched grids, UTM origins)",
+    "stretched grids, UTM origins; emg3d re-derives the coarse nodes by "
+    "cumsum, worst case ~4 n eps kappa for n <= 33 cells; quiet on the "
+    "unchanged tree with the tolerance divided by 30 (transfer) / 10 "
+    "(levels))",
     "R[int_c, bnd_f] == 0 is demanded because prolongation never touches "
     "boundary edges (zero rows of P) and R acts as P^T on interior edges; "
     "rows of R for coarse BOUNDARY edges are not constrained",
